@@ -422,7 +422,7 @@ def run(tier, seed):
     mark("validation tie")
     # ---- vm_compute slice: guards extraction
     small = [c for c in cases if len(c[1].encode()) <= 60 and not c[0].startswith("exhaustive")]
-    sl = rng.sample(small, 140) + [c for c in cases if c[0] == "numeric-catalogue"][:30]
+    sl = rng.sample(small, 100) + [c for c in cases if c[0] == "numeric-catalogue"][:30]
     vm = vm_batch([(c[1], c[2]) for c in sl])
     orc_sl = common.run_tool(orc, [p_line(c[1], c[2]) for c in sl], shards=1)
     vm_bad = [(c[1], x, y) for c, x, y in zip(sl, vm, orc_sl) if x != y]
